@@ -37,7 +37,7 @@ def run(an: Analysis, rep):
     rep.run(_c03k.r033, an, _SR8(rep, "R08.T", "the encoder finds table entries by the key equality is defined by (shared with C03's R03.3): 'equal CodeData encode to identical code objects' - a table "
                                                "keyed by id() encodes a value and its own JSON round trip differently"), _c03k.table_class(an))
     from . import json_fold as _jf8
-    rep.run(_jf8.fold_rule, an, _SR8(rep, "R08.J", "what from_json_data builds, folded over witness documents, is the data the documents describe - tuples and names, not the lists and tagged objects "
+    rep.run(lambda a_, r_: _jf8.fold_rule(a_, r_, foreign_documents=True), an, _SR8(rep, "R08.J", "what from_json_data builds, folded over witness documents, is the data the documents describe - tuples and names, not the lists and tagged objects "
                                                    "of the document (shared with C07's R07.W): 'every JSON-loaded CodeData is hashable'"))
     from . import c12
     rep.run(c12.arg_mutation_rule, an, rep, "R08.M", ["normalize", "to_code", "to_json", "from_code"])
